@@ -5,7 +5,7 @@
 // input  :  hist <seed> <nops> <anc> <tix>            random history
 //
 //	          script <seed> <a1,a2,...> <anc> <tix>     scripted history (corpus witnesses); actions:
-//	                set<v> child child+<n> fork oldfork bad:<kind> badold:<kind> retry again get
+//	                set<v> child child+<n> fork oldfork bad:<kind> badold:<kind> retry again reimport:<k> get get:<k>  (<action>*<n> repeats)
 //
 //		seed  : every random choice of the history derives from it (splitmix64)
 //		nops  : number of generated operations (before the closing re-reads)
@@ -19,6 +19,7 @@
 //
 //	B1 : every import that node A refused is removed
 //	B2 : a random subset of the refused imports is removed
+//	B3 : exactly one refused import is removed
 //	A2 : nothing removed (same sequence again)
 //	X  : nothing removed, generated and executed again in a freshly exec'ed process (a quarter of the cases)
 //
@@ -760,28 +761,42 @@ func runA(rng *h.Rng, nops int, anc, rich bool, st h.Stats, script []string) his
 	var allHashes []types.HeaderHash
 	var head *known
 	// The node keeps the states of the last 24 accepted imports only (fuzzenv.FuzzPersistentRetainBlocks; pruning is
-	// outside the model): a hash is used for GetState / as fork parent / for re-import only while fewer than
-	// `window` imports were accepted since its FIRST acceptance.
-	const window = 14
+	// outside the model): a hash is used for GetState / as parent of a fork, retry or re-import only while fewer than
+	// `window` imports were accepted since its LATEST acceptance (a block imported again is retained anew). The SetState
+	// header is never pruned. Any accepted block may be imported again, however old, as long as its parent qualifies.
+	const window = 22
 	accCount := 0
-	firstAcc := map[types.HeaderHash]int{}
+	segStart := 0
+	var genesis types.HeaderHash
+	firstAcc := map[types.HeaderHash]int{} // latest acceptance count per hash
 	eligible := func(hh types.HeaderHash) bool {
 		f, ok := firstAcc[hh]
-		return ok && accCount-f < window
+		return ok && (hh == genesis || accCount-f < window)
 	}
 	push := func(o op) string {
 		res, k := r.exec(&o)
 		out.ops = append(out.ops, o)
 		out.results = append(out.results, res)
+		if k == nil && o.kind == 'I' && strings.HasPrefix(res, "ok:") {
+			// accepted, but the node does not serve the state (":nostate"): the head moved all the same; keep authoring on
+			// it from the state the harness saw when this block was accepted before
+			for i := len(good) - 1; i >= 0; i-- {
+				if good[i].hash == o.hash {
+					c := *good[i]
+					k = &c
+					break
+				}
+			}
+		}
 		if k != nil {
 			if o.kind == 'S' {
 				accCount = 0
 				firstAcc = map[types.HeaderHash]int{}
+				genesis = k.hash
+				segStart = len(out.ops) - 1
 			}
 			accCount++
-			if _, ok := firstAcc[k.hash]; !ok {
-				firstAcc[k.hash] = accCount
-			}
+			firstAcc[k.hash] = accCount
 			good = append(good, k)
 			head = k
 		} else if o.kind == 'I' && !strings.HasPrefix(res, "ok:") {
@@ -837,6 +852,7 @@ func runA(rng *h.Rng, nops int, anc, rich bool, st h.Stats, script []string) his
 		}
 		return res
 	}
+	forkback := nops >= 40 && rng.Chance(1, 3)
 	campaign := rich && rng.Bool() // consecutive slots and full ticket extrinsics, so that a ticket-sealed epoch is reached
 	nextSlot := func(k *known) types.TimeSlot {
 		E := types.TimeSlot(types.EpochLength)
@@ -868,7 +884,17 @@ func runA(rng *h.Rng, nops int, anc, rich bool, st h.Stats, script []string) his
 	}
 	if script != nil {
 		// scripted history (corpus / hand-written witnesses): set<v> child child+<n> fork bad:<kind> retry again get
-		for _, a := range script {
+		var expanded []string
+		for _, a := range script { // <action>*<n> repeats an action
+			if i := strings.IndexByte(a, '*'); i > 0 {
+				for k := 0; k < h.I(a[i+1:]); k++ {
+					expanded = append(expanded, a[:i])
+				}
+			} else {
+				expanded = append(expanded, a)
+			}
+		}
+		for _, a := range expanded {
 			if head == nil && !strings.HasPrefix(a, "set") {
 				break
 			}
@@ -907,6 +933,28 @@ func runA(rng *h.Rng, nops int, anc, rich bool, st h.Stats, script []string) his
 						break
 					}
 				}
+			case strings.HasPrefix(a, "reimport:"): // the k-th accepted import of this history again (1-based), however old
+				k := h.I(a[9:])
+				for i := range out.ops {
+					if out.ops[i].kind == 'I' && strings.HasPrefix(out.results[i], "ok:") {
+						k--
+						if k == 0 {
+							imp(out.ops[i].blk, "again")
+							break
+						}
+					}
+				}
+			case strings.HasPrefix(a, "get:"): // GetState of the k-th accepted import of this history (1-based)
+				k := h.I(a[4:])
+				for i := range out.ops {
+					if out.ops[i].kind == 'I' && strings.HasPrefix(out.results[i], "ok:") {
+						k--
+						if k == 0 {
+							push(op{kind: 'G', hash: out.ops[i].hash, text: fmt.Sprintf("G.h%d", x.hid(out.ops[i].hash))})
+							break
+						}
+					}
+				}
 			case a == "get":
 				push(op{kind: 'G', hash: head.hash, text: fmt.Sprintf("G.h%d", x.hid(head.hash))})
 			default:
@@ -922,6 +970,26 @@ func runA(rng *h.Rng, nops int, anc, rich bool, st h.Stats, script []string) his
 			break
 		}
 		c := rng.Intn(100)
+		if forkback { // long chain, then fork back to the oldest block whose parent the node still retains
+			switch {
+			case c >= 50 && c < 72:
+				c = 0
+			case c >= 72 && c < 80 && accCount >= 16:
+				var first *op
+				for i := segStart; i < len(out.ops); i++ {
+					o := out.ops[i]
+					if o.kind == 'I' && strings.HasPrefix(out.results[i], "ok:") && eligible(o.blk.Header.Parent) && firstAcc[o.hash] > 0 &&
+						accCount-firstAcc[o.hash] >= 12 {
+						first = &out.ops[i]
+						break
+					}
+				}
+				if first != nil {
+					imp(first.blk, "again")
+					continue
+				}
+			}
+		}
 		switch {
 		case c < 40: // valid child of the head
 			imp(author(rng, &head.state, head.hash, head.root, nextSlot(head), rich), "child")
@@ -950,7 +1018,7 @@ func runA(rng *h.Rng, nops int, anc, rich bool, st h.Stats, script []string) his
 		case c < 85: // re-import an accepted block
 			var cand []op
 			for i, o := range out.ops {
-				if o.kind == 'I' && strings.HasPrefix(out.results[i], "ok:") && eligible(o.hash) {
+				if i >= segStart && o.kind == 'I' && strings.HasPrefix(out.results[i], "ok:") && eligible(o.blk.Header.Parent) {
 					cand = append(cand, o)
 				}
 			}
@@ -962,8 +1030,11 @@ func runA(rng *h.Rng, nops int, anc, rich bool, st h.Stats, script []string) his
 				w = len(cand)
 			}
 			o := cand[len(cand)-1-rng.Intn(w)]
-			if rng.Chance(1, 3) {
+			switch rng.Intn(3) {
+			case 0:
 				o = cand[len(cand)-1]
+			case 1: // any earlier block, however old (fork back after a long chain: its stale retention entry is still around)
+				o = cand[rng.Intn(len(cand))]
 			}
 			imp(o.blk, "again")
 		case c < 98: // GetState
@@ -1094,6 +1165,26 @@ func run(input string) string {
 	}
 	parts = append(parts, "B1 "+mask(keep1)+strings.Join(replay(a.ops, keep1), " "))
 	parts = append(parts, "B2 "+mask(keep2)+strings.Join(replay(a.ops, keep2), " "))
+	// B3: exactly one refused import removed (in scripts the first one, otherwise a random one), everything after it kept:
+	// a later import that A refuses only because of what that block left behind is accepted here
+	var refIdx []int
+	for i := range a.ops {
+		if !keep1[i] {
+			refIdx = append(refIdx, i)
+		}
+	}
+	if len(refIdx) > 0 {
+		keep3 := make([]bool, len(a.ops))
+		for i := range keep3 {
+			keep3[i] = true
+		}
+		pick := refIdx[0]
+		if f[0] != "script" {
+			pick = refIdx[rng.Intn(len(refIdx))]
+		}
+		keep3[pick] = false
+		parts = append(parts, "B3 "+mask(keep3)+strings.Join(replay(a.ops, keep3), " "))
+	}
 	parts = append(parts, "A2 "+mask(all)+strings.Join(replay(a.ops, nil), " "))
 	// X: the same history generated and executed again in a freshly started process (a really fresh node)
 	if os.Getenv("C26_SUB") == "" && (f[0] == "script" || h.U(f[1])%4 == 0) {
